@@ -209,6 +209,24 @@ def check_case(ctx, r, prog, plan, reg, info, lines, expect):
             if comp[k] != v:
                 viol.append({"property": "C15", "what": f"after a successful run completed={comp[k]} but total={v} for {k}"})
     # per engine invocation: compare with the model's block
+    def scope_wrong(n, scope, sec):
+        """the scope under which a call is reported = the user's scope, then the function's name (and, in the stale check,
+        the class of its value store) - judged without the repository's own scope helpers"""
+        if type(scope) is not tuple:
+            return "is not a tuple"
+        k = len(n.scope)
+        if scope[:k] != tuple(n.scope):
+            return "does not start with the user's scope %r" % (tuple(n.scope),)
+        fname = getattr(n.fn, "__qualname__", None) or type(n.fn).__qualname__
+        store = reg.get(n) if (reg is not None and sec == "stale") else None
+        if len(scope) != k + 1 + (store is not None):
+            return "has %d elements after the user's scope" % (len(scope) - k)
+        if not (isinstance(scope[k], str) and scope[k].endswith(fname)):
+            return "does not name the function %s" % fname
+        if store is not None and not (isinstance(scope[k + 1], str) and scope[k + 1].endswith(type(store).__qualname__)):
+            return "does not name the store class %s" % type(store).__qualname__
+        return None
+
     for tr in r.traces:
         sec = "stale" if tr.scheduler == "cheap" else "run"
         sec_id = 0 if sec == "stale" else 1
@@ -217,6 +235,9 @@ def check_case(ctx, r, prog, plan, reg, info, lines, expect):
         for i in callnodes:
             n = tr.nodes[i]
             scope = _get_stale_scope(n, reg) if sec == "stale" else get_full_call_scope(n)
+            bad = scope_wrong(n, scope, sec)
+            if bad:
+                viol.append({"property": "C15", "what": f"the '{sec}' scope {scope!r} of a call {bad}"})
             sc_of[i] = scopes.setdefault(scope, len(scopes))
         if r.exc is None and sec == "stale":
             # the calls examined: every Call of the (copied, output-gathered) plan handed to the stale check
